@@ -128,4 +128,6 @@ def targets(ctx):
         case["tz"] = draw(st.sampled_from([0, 0, 330, -480, 60, 840]))
         return case
 
-    return [Target("corpus_values_json", ev, strategy=strat(), quick=700, thorough=8000, time_quick=70)]
+    from . import _seq
+
+    return [Target("corpus_values_json", ev, strategy=strat(), quick=700, thorough=8000, time_quick=70), _seq.target("C04")]
